@@ -197,7 +197,7 @@ def run_c07(tier, seed, res):
 def run_c08(tier, seed, res):
     E.run_workload(res, "mon", "C08h", sz(tier, 40000, 1500000), tier, seed)
     E.run_workload(res, "mon", "C08t", sz(tier, 800, 20000), tier, seed, extra=["--threads", "16"], chunks=sz(tier, 8, 16), per_case_timeout=20.0)
-    n_miri = sz(tier, 24, 512)
+    n_miri = sz(tier, 32, 640)
     E.run_miri(res, "C08t", n_miri, tier, seed, extra=["--tiny"], procs=n_miri, vary_scheduler_seed=True)
     res.add_counter("miri_scheduler_seeds_used", n_miri)
     if tier == "thorough":
@@ -503,7 +503,7 @@ def run_c18(tier, seed, res):
         res.digests.update(sub.digests)
         res.add_counter("feature_configurations_run_with_ub_checks", 1)
         res.add_counter("predictions_in_feature_builds", sub.counters.get("predictions_traced", 0))
-    n_miri = sz(tier, 24, 640)
+    n_miri = sz(tier, 40, 960)
     E.run_miri(res, "C18u", n_miri, tier, seed, extra=["--tiny"], procs=n_miri)   # one interpreter process per case (costs vary 7..120 s)
     return {
         "rule": "one round = the C01, C06, C14 (predictor serialise/deserialise of self-produced bytes), C15, C02, C03, C04 and C05 workloads on fresh "
